@@ -167,6 +167,19 @@ func consumerLoopRule(c *Ctx, rule string, fn *ssa.Function, label string,
 				afterWrite = true
 			}
 		}
+		if !afterWrite {
+			// one return statement reached both from the closed-channel edge and from a failed
+			// write (loops left by break): every way into it carries one of the two facts
+			afterWrite = onEveryPath(r.Block(), func(f EdgeFact) bool {
+				if f.Cond == rs.ok && !f.Val {
+					return true
+				}
+				if u, ok := f.Cond.(*ssa.UnOp); ok && u.Op == token.NOT && u.X == rs.ok && f.Val {
+					return true
+				}
+				return dependsOnCallResult(f.Cond, isWrite)
+			})
+		}
 		c.Check(afterWrite, rule, label+":return(other)", r.Pos(), "return only after a failed or short write (the writer stops by design)",
 			"the consumer can stop while its channel is open for a reason other than a failed write: later messages are lost and the producer blocks")
 	}
